@@ -123,17 +123,9 @@ def run(c):
         _, s_alias = surface_timeseries("z", fs, L, spec, alias)
         require(not np.array_equal(np.asarray(s_alias), series["z"]), "different_seed_different_series",
                 f"seeds {seed} {alias}")
-    # scaling
+    # (directly after the calls above, before any other spectrum object is used:) the same object used again with another
+    # sampling rate (same length), and after its contents were replaced in place: the record must be the one a freshly built object gives (nothing remembered from earlier calls)
     sc = c["scale"]
-    spec_c, _ = build(c, sc)
-    for comp in ("z", "u"):
-        _, s2 = surface_timeseries(comp, fs, L, spec_c, seed)
-        ref = math.sqrt(sc) * series[comp]
-        tol = 1e-12 * max(float(np.abs(ref).max()), 1e-300)
-        require(np.abs(np.asarray(s2) - ref).max() <= tol * 10, "scaling_by_c_scales_series_by_sqrt_c",
-                f"component={comp} c={sc} max diff={np.abs(np.asarray(s2) - ref).max()!r}")
-    # the same object used again with another sampling rate (same length), and after its contents were replaced in
-    # place: the record must be the one a freshly built object gives (nothing remembered from earlier calls)
     fs2 = c.get("fs2")
     if fs2 and fs2 != fs:
         _, s_reuse = surface_timeseries("z", fs2, L, spec, seed)
@@ -143,6 +135,7 @@ def run(c):
                 "series_does_not_depend_on_earlier_calls_with_the_same_object",
                 f"fs={fs} then fs2={fs2} L={L}: max diff={np.abs(np.asarray(s_reuse) - np.asarray(s_fresh)).max()!r}")
     if c.get("modify_in_place"):
+        surface_timeseries("z", fs, L, spec, seed)      # the object's last use directly precedes its modification
         if c["modify_in_place"] == "setitem":
             spec["variance_density"] = spec.variance_density * sc
         else:
@@ -152,6 +145,15 @@ def run(c):
         tol = 1e-11 * max(float(np.abs(ref).max()), 1e-300)
         require(np.abs(np.asarray(s_mod) - ref).max() <= tol, "scaling_by_c_scales_series_by_sqrt_c",
                 f"object scaled in place ({c['modify_in_place']}) c={sc} max diff={np.abs(np.asarray(s_mod) - ref).max()!r}")
+    # scaling
+    sc = c["scale"]
+    spec_c, _ = build(c, sc)
+    for comp in ("z", "u"):
+        _, s2 = surface_timeseries(comp, fs, L, spec_c, seed)
+        ref = math.sqrt(sc) * series[comp]
+        tol = 1e-12 * max(float(np.abs(ref).max()), 1e-300)
+        require(np.abs(np.asarray(s2) - ref).max() <= tol * 10, "scaling_by_c_scales_series_by_sqrt_c",
+                f"component={comp} c={sc} max diff={np.abs(np.asarray(s2) - ref).max()!r}")
     classes = (["energy_in_last_direction_bin_of_grid_not_starting_at_0"]
                if c["two_d"] and c["bin"] == c["nd"] - 1 and (c["t0"] != 0.0 or c.get("labels") == "pm180") else [])
     classes += ["2d" if c["two_d"] else "1d", "odd_L" if L % 2 else "even_L",
